@@ -196,3 +196,23 @@ PROPS["C03"] = dict(
     technique="Lean 4 algebraic identities and table certificates + quadrature-oracle correspondence",
     assumptions=["S12 compared modulo 2πc² for multi-circuit lines"],
 )
+
+PROPS["C02"] = dict(
+    harnesses=[dict(name="C02", procs_quick=4, procs_thorough=16)],
+    rule=("point pairs: the antipodal astroid region (lat2 = −lat1 + u·10^-k, lon12 = 180 − v·10^-k, k = 1…12), poles, equatorial pairs inside and beyond "
+          "(1−f)·180°, common meridian (0 and 180°), separations 1e-15…1e-3 degree, coincident, ±360k longitudes, lat2 = −lat1; f ∈ {WGS84, 0, ±1e-3, "
+          "±1/150, ±0.01, ±0.02} (both solvers), {0.5, −1, ±0.1} (exact); wrapper correspondence on inputs with exactly representable longitude "
+          "differences. non-trivial = finite result; distinct = distinct (op, leading argument bits)"),
+    tolerances={"closure (oracle direct from point 1)": "1.5 × 4 × documented accuracy × max(1, a12/180)", "a12, azimuth ranges, s12 ≥ 0": "exact (Lean)",
+                "wrapper image": "bit-for-bit up to the sign of zero", "series vs exact": "sum of both tolerances", "triangle inequality": "4 × tol"},
+    level_text=("Theorems (for every core solver): the tail of GenInverse maps the canonical answer so that exchanging the end points reverses and "
+                "exchanges the azimuths and M12/M21 and negates S12, reflection in the equator maps azi ↦ 180 − azi, reflection in a meridian azi ↦ −azi, "
+                "each negating S12; sign flips are involutions; the core is only called on canonical problems. The executable model of the "
+                "canonicalisation predicts, bit for bit, the implementation's answer on a general input from its answer on the canonical one. Closure "
+                "through the specification oracle, a12 ∈ [0, 180], m12 ≥ 0 (no conjugate point inside), triangle inequality through way points, "
+                "longitudinal extent on prolate ellipsoids, symmetries and solver agreement are checked on the implementation. Partial: convergence "
+                "of the Newton iteration and global minimality are not theorems."),
+    level_note="hand-written model of the head and tail of Geodesic::GenInverse / GeodesicExact::GenInverse over the exact F64 softfloat; the solver proper is a kernel",
+    technique="Lean 4 proof of the symmetry bookkeeping for an arbitrary core + exact wrapper correspondence + oracle closure",
+    assumptions=["AngDiff/AngRound/LatFix models of C16"],
+)
